@@ -140,7 +140,7 @@ fn add<T: Chunky>(alpha_name: &str, alpha: Vec<T::Item>, depth: usize, judge: Ju
     Box::new(Bfs::new(ChunkAddSpec::<T> { prop: "C17", alpha_name: alpha_name.into(), alpha, judge }, depth))
 }
 fn trees<T: Chunky>(alpha_name: &str, alpha: Vec<T::Item>, max_len: usize, judge: Judge<T>) -> Box<dyn Check> {
-    Box::new(IntervalCheck::<T> { prop: "C17", alpha_name: alpha_name.into(), alpha, max_len, cap_per_word: 20_000, judge, extra: Box::new(|| Value::Null) })
+    Box::new(IntervalCheck::<T> { prop: "C17", alpha_name: alpha_name.into(), alpha, max_len, cap_per_word: 4_000, judge, extra: Box::new(|| Value::Null) })
 }
 
 fn uni<T: Chunky<Item = f64>>(checks: &mut Vec<Box<dyn Check>>, q: bool) {
@@ -279,8 +279,10 @@ impl<T: Chunky<Item = f64>> RunMerge<T> {
     fn cases(&self) -> Vec<(Vec<(f64, usize)>, bool)> {
         let mut v = Vec::new();
         for b in bases() {
-            for d in [1u32, 2, 3] {
-                let c = up(b, d);
+            for d in [1u32, 2, 3, 0] {
+                // d = 0: a far value (the runs are then well separated: a mean that leaves the
+                // data range by extrapolation shows here, not between neighbours)
+                let c = if d == 0 { b + (b.abs() * 0.25).max(1.0).min(1e300) } else { up(b, d) };
                 for na in 1..=self.max_run {
                     for nb in 1..=self.max_run {
                         v.push((vec![(b, na), (c, nb)], true));
@@ -292,7 +294,7 @@ impl<T: Chunky<Item = f64>> RunMerge<T> {
                         for nc in 1..=self.max_run.min(5) {
                             for nest in [true, false] {
                                 v.push((vec![(b, na), (c, nb), (b, nc)], nest));
-                                v.push((vec![(b, na), (c, nb), (up(c, d), nc)], nest));
+                                v.push((vec![(b, na), (c, nb), (up(c, d.max(1)), nc)], nest));
                             }
                         }
                     }
@@ -378,7 +380,7 @@ pub fn plan(tier: Tier) -> Plan {
         checks.push(add::<WeightedMean>(a, pairs(a), if q { 5 } else { 7 }, weighted_judge::<WeightedMean>()));
         checks.push(trees::<WeightedMean>(a, { let mut p = pairs(a); p.truncate(4); p }, if q { 5 } else { 6 }, weighted_judge::<WeightedMean>()));
     }
-    let mr = if q { 8 } else { 16 };
+    let mr = if q { 12 } else { 24 };
     checks.push(runs::<U<Mean>>(mr));
     checks.push(runs::<U<Variance>>(mr));
     checks.push(runs::<U<Skewness>>(mr));
